@@ -12,6 +12,12 @@
 (*                      refutes it (ISr_wipe.cfg).                             *)
 (* Design = "noclean":  no cleaner at all: the rule still holds (the cleaner   *)
 (*                      is memory hygiene only), the table grows.              *)
+(* Design = "scan_then_delete": the cleaner walks the table under a read lock, *)
+(*                      lets go of it, and deletes what it found under the    *)
+(*                      write lock without looking again (a seeded change     *)
+(*                      the test suite accepts): a heartbeat handled between  *)
+(*                      the two steps renews an entry that is then deleted -  *)
+(*                      TLC refutes it (ISr_scan_then_delete.cfg).            *)
 (*                                                                            *)
 (* Refinement statement: the bursts the implementation sends are exactly the  *)
 (* ones the rule SrRule!Due prescribes for the heartbeat times seen.          *)
@@ -23,9 +29,10 @@ VARIABLES now,      \* current tick
           last,     \* the table: sender -> tick of its last burst, -1 = absent
           hbs,      \* history: sender -> ticks at which a heartbeat was processed
           bursts,   \* history: sender -> ticks at which a burst was sent
-          cleaned   \* tick of the cleaner's last run
+          cleaned,  \* tick of the cleaner's last run
+          marked    \* two-step cleaner only: <<TRUE, senders found expired, not deleted yet>>, else <<FALSE, {}>>
 
-vars == <<now, last, hbs, bursts, cleaned>>
+vars == <<now, last, hbs, bursts, cleaned, marked>>
 
 Init ==
   /\ now = 0
@@ -33,13 +40,14 @@ Init ==
   /\ hbs = [s \in Senders |-> <<>>]
   /\ bursts = [s \in Senders |-> <<>>]
   /\ cleaned = 0
+  /\ marked = <<FALSE, {}>>
 
 \* time passes; the cleaner must have run at its ticks before time moves on (the ticker fires, the goroutine is not starved)
 Tick ==
   /\ now < Horizon
   /\ (Design = "noclean" \/ now % Period # 0 \/ cleaned = now)
   /\ now' = now + 1
-  /\ UNCHANGED <<last, hbs, bursts, cleaned>>
+  /\ UNCHANGED <<last, hbs, bursts, cleaned, marked>>
 
 \* onEventFrame for a heartbeat of sender s (at most one per sender per tick keeps the model finite)
 Heartbeat(s) ==
@@ -49,18 +57,32 @@ Heartbeat(s) ==
      THEN /\ last' = [last EXCEPT ![s] = now]
           /\ bursts' = [bursts EXCEPT ![s] = Append(@, now)]
      ELSE UNCHANGED <<last, bursts>>
-  /\ UNCHANGED <<now, cleaned>>
+  /\ UNCHANGED <<now, cleaned, marked>>
 
 \* the cleaner's tick
 Clean ==
-  /\ Design # "noclean"
+  /\ Design \notin {"noclean", "scan_then_delete"}
   /\ now > 0 /\ now % Period = 0 /\ cleaned # now
   /\ cleaned' = now
   /\ last' = IF Design = "wipe" THEN [s \in Senders |-> -1]
              ELSE [s \in Senders |-> IF last[s] >= 0 /\ now - last[s] >= Period THEN -1 ELSE last[s]]
+  /\ UNCHANGED <<now, hbs, bursts, marked>>
+
+\* the two-step cleaner: heartbeats may be handled between the steps (time does not pass: Tick waits for cleaned = now)
+CleanScan ==
+  /\ Design = "scan_then_delete"
+  /\ now > 0 /\ now % Period = 0 /\ cleaned # now /\ ~marked[1]
+  /\ marked' = <<TRUE, {s \in Senders : last[s] >= 0 /\ now - last[s] >= Period}>>
+  /\ UNCHANGED <<now, last, hbs, bursts, cleaned>>
+
+CleanDelete ==
+  /\ Design = "scan_then_delete" /\ marked[1]
+  /\ last' = [s \in Senders |-> IF s \in marked[2] THEN -1 ELSE last[s]]
+  /\ cleaned' = now
+  /\ marked' = <<FALSE, {}>>
   /\ UNCHANGED <<now, hbs, bursts>>
 
-Next == Tick \/ Clean \/ \E s \in Senders : Heartbeat(s)
+Next == Tick \/ Clean \/ CleanScan \/ CleanDelete \/ \E s \in Senders : Heartbeat(s)
 
 Spec == Init /\ [][Next]_vars
 
